@@ -489,3 +489,239 @@ func onlySpaceStores(buf ssa.Value, alias ssa.Value) bool {
 	}
 	return n > 0
 }
+
+// R20TokenOwnership — every partition of the input tokens ends up in the write tree.
+func R20TokenOwnership(c *Ctx) {
+	const rule = "R20-token-ownership"
+	c.R.Rule(rule, "in hclwrite's parser every value of type inputTokens — a parameter, or a part returned by Partition*/Slice — is consumed: partitioned further, handed to a parse* function, returned, or turned into Tokens() that are attached to a node; a part that is only measured (Len/Types) or not used at all means its tokens belong to no node and vanish from the serialised file", 40)
+	isIT := func(t types.Type) bool { return strings.HasSuffix(t.String(), "hclwrite.inputTokens") }
+	nonConsuming := map[string]bool{"Len": true, "Types": true}
+	n := 0
+	for _, fn := range c.P.ModuleFuncs(func(p string) bool { return p == PkgHclwrite }) {
+		if fn.Blocks == nil {
+			continue
+		}
+		// definitions
+		var defs []ssa.Value
+		ownMethod := fn.Signature.Recv() != nil && isIT(fn.Signature.Recv().Type())
+		for i, p := range fn.Params {
+			if ownMethod && i == 0 {
+				continue // the receiver of inputTokens' own methods is taken apart by field access
+			}
+			if isIT(p.Type()) {
+				defs = append(defs, p)
+			}
+		}
+		for _, b := range fn.Blocks {
+			for _, in := range b.Instrs {
+				switch x := in.(type) {
+				case *ssa.Extract:
+					if isIT(x.Type()) {
+						defs = append(defs, x)
+					}
+				case *ssa.Call:
+					if isIT(x.Type()) {
+						defs = append(defs, x)
+					}
+				}
+			}
+		}
+		if len(defs) == 0 {
+			continue
+		}
+		consumed := func(def ssa.Value) bool {
+			seen := map[ssa.Value]bool{}
+			var rec func(v ssa.Value) bool
+			rec = func(v ssa.Value) bool {
+				if seen[v] {
+					return false
+				}
+				seen[v] = true
+				refs := v.Referrers()
+				if refs == nil {
+					return false
+				}
+				for _, r := range *refs {
+					switch u := r.(type) {
+					case *ssa.Phi:
+						if rec(u) {
+							return true
+						}
+					case *ssa.Return:
+						return true
+					case *ssa.Store:
+						if u.Val == v {
+							// spilled local: follow the loads of the cell
+							if al, ok := u.Addr.(*ssa.Alloc); ok {
+								for _, r2 := range *al.Referrers() {
+									if ld, ok := r2.(*ssa.UnOp); ok && ld.Op == token.MUL && rec(ld) {
+										return true
+									}
+								}
+								continue
+							}
+							return true
+						}
+					case *ssa.Call:
+						name := ""
+						if callee := u.Call.StaticCallee(); callee != nil {
+							name = callee.Name()
+						}
+						if nonConsuming[name] {
+							continue
+						}
+						if name == "Tokens" {
+							if rr := u.Referrers(); rr != nil && len(*rr) > 0 {
+								used := false
+								for _, r3 := range *rr {
+									if _, dbg := r3.(*ssa.DebugRef); !dbg {
+										used = true
+									}
+								}
+								if used {
+									return true
+								}
+							}
+							continue
+						}
+						return true
+					case *ssa.Field:
+						// direct field access (it.writerTokens[...]): inside inputTokens' own methods
+						return true
+					case *ssa.MakeInterface, *ssa.ChangeType:
+						return true
+					}
+				}
+				return false
+			}
+			return rec(def)
+		}
+		for _, d := range defs {
+			// methods of inputTokens themselves build the parts; their receiver's use is by field access
+			n++
+			construct := "inputTokens " + describeIT(d)
+			pos := c.pos(fn.Pos())
+			if in, ok := d.(ssa.Instruction); ok && in.Pos().IsValid() {
+				pos = c.pos(in.Pos())
+			}
+			if consumed(d) {
+				c.R.Ok(rule, FuncShort(fn), construct, pos, "flows into a further partition, a parse function, a return or tokens attached to a node", true)
+			} else {
+				c.R.Bad(rule, FuncShort(fn), construct, pos, "this part of the input tokens is never attached to the write tree (unused, or only measured): its tokens are lost from the serialised file")
+			}
+		}
+	}
+	_ = n
+}
+
+func describeIT(v ssa.Value) string {
+	switch x := v.(type) {
+	case *ssa.Parameter:
+		return "parameter " + x.Name()
+	case *ssa.Extract:
+		if call, ok := x.Tuple.(*ssa.Call); ok {
+			if callee := call.Call.StaticCallee(); callee != nil {
+				return "result " + itoa(x.Index) + " of " + callee.Name()
+			}
+		}
+		return "result " + itoa(x.Index)
+	case *ssa.Call:
+		if callee := x.Call.StaticCallee(); callee != nil {
+			return "result of " + callee.Name()
+		}
+	}
+	return "value"
+}
+
+// R20ItemPairing — the item set of a body/label list and its child list move together.
+func R20ItemPairing(c *Ctx) {
+	const rule = "R20-item-pairing"
+	c.R.Rule(rule, "in hclwrite every node added to an item set (nodeSet.Add) is, in the same function, also the node appended/inserted into the child list (or the result of children.Append), and every node detached from the tree inside a Body method (node.Detach) is removed from the item set (nodeSet.Remove) with the same node value, and vice versa: lookups (GetAttribute, Blocks) and the serialised tokens describe the same set of items", 5)
+	sameNode := func(a, b ssa.Value) bool {
+		if a == b {
+			return true
+		}
+		// loads of the same local cell
+		la, ok1 := a.(*ssa.UnOp)
+		lb, ok2 := b.(*ssa.UnOp)
+		return ok1 && ok2 && la.X == lb.X
+	}
+	for _, fn := range c.P.ModuleFuncs(func(p string) bool { return p == PkgHclwrite }) {
+		if fn.Blocks == nil {
+			continue
+		}
+		type site struct {
+			call ssa.CallInstruction
+			node ssa.Value
+		}
+		var adds, removes, detaches, attaches []site
+		for _, b := range fn.Blocks {
+			for _, in := range b.Instrs {
+				call, ok := in.(ssa.CallInstruction)
+				if !ok {
+					continue
+				}
+				n := CalleeName(call)
+				args := call.Common().Args
+				switch {
+				case strings.HasSuffix(n, "hclwrite.nodeSet).Add") && len(args) == 2:
+					adds = append(adds, site{call, args[1]})
+				case strings.HasSuffix(n, "hclwrite.nodeSet).Remove") && len(args) == 2:
+					removes = append(removes, site{call, args[1]})
+				case strings.HasSuffix(n, "hclwrite.node).Detach") && len(args) == 1:
+					detaches = append(detaches, site{call, args[0]})
+				case (strings.HasSuffix(n, "hclwrite.nodes).AppendNode") || strings.HasSuffix(n, "hclwrite.nodes).InsertNode")) && len(args) >= 2:
+					attaches = append(attaches, site{call, args[len(args)-1]})
+				case strings.HasSuffix(n, "hclwrite.nodes).Append") || strings.HasSuffix(n, "hclwrite.nodes).Insert"):
+					if v := call.Value(); v != nil {
+						attaches = append(attaches, site{call, v})
+					}
+				}
+			}
+		}
+		fname := FuncShort(fn)
+		for _, a := range adds {
+			ok := false
+			for _, t := range attaches {
+				if sameNode(a.node, t.node) {
+					ok = true
+				}
+			}
+			if ok {
+				c.R.Ok(rule, fname, "items.Add(n) with n attached to the child list", c.pos(a.call.Pos()), "the same node is appended to the children", true)
+			} else {
+				c.R.Bad(rule, fname, "items.Add(n) with n attached to the child list", c.pos(a.call.Pos()), "a node is recorded as an item without being attached to the child list in this function: lookups find an item that is not serialised")
+			}
+		}
+		isBodyMethod := fn.Signature.Recv() != nil && strings.HasSuffix(fn.Signature.Recv().Type().String(), "hclwrite.Body")
+		for _, d := range detaches {
+			if !isBodyMethod {
+				continue
+			}
+			ok := false
+			for _, r := range removes {
+				if sameNode(d.node, r.node) && (InstrDominates(d.call, r.call) || InstrDominates(r.call, d.call)) {
+					ok = true
+				}
+			}
+			if ok {
+				c.R.Ok(rule, fname, "n.Detach() with items.Remove(n)", c.pos(d.call.Pos()), "the detached node is also dropped from the item set", true)
+			} else {
+				c.R.Bad(rule, fname, "n.Detach() with items.Remove(n)", c.pos(d.call.Pos()), "a node is detached from the tree but stays in the body's item set: GetAttribute/Attributes/Blocks still return the removed item and later edits go to the detached node")
+			}
+		}
+		for _, r := range removes {
+			ok := false
+			for _, d := range detaches {
+				if sameNode(d.node, r.node) {
+					ok = true
+				}
+			}
+			if ok {
+				c.R.Ok(rule, fname, "items.Remove(n) with n.Detach()", c.pos(r.call.Pos()), "the node leaves both the item set and the tree", true)
+			} else {
+				c.R.Bad(rule, fname, "items.Remove(n) with n.Detach()", c.pos(r.call.Pos()), "a node is dropped from the item set but stays in the tree: it is still serialised although lookups no longer find it")
+			}
+		}
+	}
+}
